@@ -19,7 +19,7 @@ func (b *binder) runPumps() error {
 	t0 := time.Now()
 	cfg := fmt.Sprintf("SPECIFICATION Spec\nCONSTANTS\n  Tier = %q\n  ScriptOf <- NoScript\nINVARIANTS Bounded\n", c.Tier)
 	res, err := tlc.Run(tlc.Opts{SpecDir: c.SpecDir("script"), Module: "MCPump", CfgText: cfg, Workers: 2,
-		Timeout: 15 * time.Minute, Scratch: c.Scratch, HeapGB: 6, Extra: []string{"-dump", dump}})
+		Timeout: 15 * time.Minute, Scratch: c.Scratch, HeapGB: 6, Coverage: c.Thorough, Extra: []string{"-dump", dump}})
 	if err != nil {
 		return fmt.Errorf("MCPump: %w", err)
 	}
@@ -29,6 +29,11 @@ func (b *binder) runPumps() error {
 	c.AddModel(res.Distinct, res.Generated)
 	if err := b.ensureTables(res.Output); err != nil {
 		return err
+	}
+	if c.Thorough {
+		if err := coverageAudit("MCPump", res, []string{"Init", "Pick", "Evaluate"}); err != nil {
+			return err
+		}
 	}
 	c.Logf("MCPump: %d states in %.0fs", res.Distinct, time.Since(t0).Seconds())
 	type job struct {
